@@ -19,7 +19,7 @@ for d in sorted(glob.glob(f'{ROOT}/seeded/*/')):
     prop=meta['property']
     rc,first=run(d+'patch.diff', prop, 'quick')
     tier='quick'
-    if rc!=1:
+    if rc!=1 and not os.environ.get('QUICK_ONLY'):
         rc2,first2=run(d+'patch.diff', prop, 'thorough')
         if rc2==1: rc,first,tier=rc2,first2,'thorough'
     meta['detection']={"check":prop,"detected":rc==1,"tier":tier if rc==1 else None,"first_violation":first,
